@@ -2,6 +2,7 @@ package configmigrate
 
 import (
 	"fmt"
+	"math"
 )
 
 type (
@@ -32,10 +33,35 @@ func fieldVal[T any](obj yobj, key string) (v T, ok bool, err error) {
 
 	v, ok = val.(T)
 	if !ok {
+		v, ok = intFromFloat[T](val)
+	}
+
+	if !ok {
 		return v, false, fmt.Errorf("unexpected type of %q: %T", key, val)
 	}
 
 	return v, true, nil
+}
+
+// intFromFloat returns the value of type T, if T is int, for val that is an
+// integer written in the form of a floating point number, like 24.0 or 5e5.
+// The decoder into the configuration structure accepts those for integer
+// fields, and they turn into integers when a document is encoded again, so
+// they must not make a difference here.
+func intFromFloat[T any](val any) (v T, ok bool) {
+	f, ok := val.(float64)
+	if !ok {
+		return v, false
+	}
+
+	intPtr, ok := any(&v).(*int)
+	if !ok || f != math.Trunc(f) || math.Abs(f) >= 1<<53 {
+		return v, false
+	}
+
+	*intPtr = int(f)
+
+	return v, true
 }
 
 // moveVal copies the value for srcKey from src into dst for dstKey and deletes
